@@ -259,6 +259,10 @@ class Registry:
             return [I(k) for k in range(lo, hi)]
         if isinstance(it, Str):
             return [Str(c) for c in it.v]
+        if isinstance(it, Obj) and it.cls in ("H5Group", "H5File"):
+            # h5py iterates a group's member names in alphabetical order ('10' sorts before '2')
+            g = it.f["root"] if it.cls == "H5File" else it
+            return [Str(nm) for nm in sorted(g.f["members"].d)]
         if isinstance(it, Arr) and "lit" in it.meta:
             return [Z(t, "bool" if it.elem == "bool" else "real") for t in it.meta["lit"]]
         return None
